@@ -382,6 +382,23 @@ class Check:
         return self.scratch
 
     # -- verdicts
+    def simcheck(self, s, ncases=400):
+        """validate qsim against the real kernel (harness/simcheck.c): same seeded scripts of file-system calls on both,
+        observable results compared.  The outcome is recorded in the evidence; a difference is reported as a NOTE (it
+        concerns the trusted base on this platform, not the property)."""
+        try:
+            exe = os.path.join(s.dir, "simcheck")
+            rc, o = sh("cc -O1 -g -w -I%s/harness -o %s %s/harness/simcheck.c %s/harness/sim.c -lpthread -ldl" % (VERIF, exe, VERIF, VERIF), cwd=s.dir)
+            if rc != 0:
+                self.cov["simcheck"] = "not built: " + o[-300:]
+                return
+            rc, o = sh("%s %d %d" % (exe, ncases, self.seed), cwd=s.dir, timeout=600)
+            self.cov["simcheck"] = o.strip()[-600:]
+            if rc != 0:
+                print("NOTE qsim differs from the kernel on this platform: " + o.strip()[:300])
+        except Exception as ex:
+            self.cov["simcheck"] = "error: %r" % (ex,)
+
     def replay_path(self):
         self._nreplay += 1
         d = os.path.join(VERIF, "replays")
@@ -540,6 +557,8 @@ def run_standard(prop, prop_module, driver, harness_src, link_like, objs_exclude
     neighbourhood = None
     if s.ok and c.driver_ok:
         try:
+            if prop in ("C01", "C03", "C04", "C12"):      # these run the real programs under qsim: validate qsim against the kernel too
+                c.simcheck(s, 400 if c.tier == "quick" else 4000)
             if builder:
                 h = builder(s)
             else:
